@@ -1153,17 +1153,42 @@ class Interp:
             return self.eval(e.body, env, module)
         return self.eval(e.orelse, env, module)
 
-    def ex_List(self, e, env, module):
-        out = PList()
+    def _display(self, e, env, module):
+        """elements of a list / tuple display; `*xs` with a symbolic sequence makes the whole display a symbolic sequence:
+        -> (python list of values, None) or (None, VL term)"""
+        parts = []                      # ("one", value) | ("many", VL term)
+        symbolic = False
         for x in e.elts:
             if isinstance(x, ast.Starred):
-                out.extend(self.iterate(self.eval(x.value, env, module)))
+                v = self.eval(x.value, env, module)
+                seq = self.models._seq_term(self, v, getattr(e, "lineno", None), "starred element") if isinstance(v, (SV, MList, V.DDEntry, MSet)) else None
+                if seq is not None:
+                    parts.append(("many", seq))
+                    symbolic = True
+                else:
+                    parts.extend(("one", y) for y in self.iterate(v))
             else:
-                out.append(self.eval(x, env, module))
+                parts.append(("one", self.eval(x, env, module)))
+        if not symbolic:
+            return [v for _, v in parts], None
+        t = V.VNil
+        for kind, v in reversed(parts):
+            t = V.VCons(V.store_lower(v), t) if kind == "one" else V.vconcat(v, t)
+        return None, t
+
+    def ex_List(self, e, env, module):
+        items, t = self._display(e, env, module)
+        if items is None:
+            return MList(V.VList(t))
+        out = PList()
+        out.extend(items)
         return out
 
     def ex_Tuple(self, e, env, module):
-        return tuple(list.__iter__(self.ex_List(e, env, module)))
+        items, t = self._display(e, env, module)
+        if items is None:
+            return SV(V.VTuple(t))
+        return tuple(items)
 
     def ex_Set(self, e, env, module):
         items = self.ex_List(e, env, module)
